@@ -16,7 +16,20 @@ func (p path) appendIndex(o jsonObject, metadata []Metadata) path {
 		meta = append(meta, jsonString(sk.string()))
 	}
 	p = append(p, meta)
-	// Append index.
+	// Append index. With set keys the index is the identity of the
+	// object (its key fields), not the whole object: other fields may
+	// change between hunks.
+	if sk != nil {
+		id := make(jsonObject)
+		for k := range sk.keys {
+			if v, ok := o[k]; ok {
+				id[k] = v
+			}
+		}
+		if len(id) > 0 {
+			return append(p, id)
+		}
+	}
 	return append(p, o)
 }
 
